@@ -191,6 +191,22 @@ def run_construct(case):
             res.violate("membership-stale-after-points-assignment", form=fname, detail={"shape": case["shape"]})
         if abs(p2.area - area) > TOLERANCES["area"] * area:
             res.violate("area-stale-after-points-assignment", form=fname)
+    # a sequence of short-lived polygons with one vertex count and changing geometry (objects re-created at recycled addresses)
+    import gc
+
+    for it in range(24):
+        fac, sh = 1.0 + 0.05 * it, np.array([0.11 * it, -0.07 * it])
+        verts = ccw * fac + sh
+        q = tdgl.Polygon("s", points=verts)
+        keep_i = ~near_outline(probes, [verts])
+        got = q.contains_points(probes[keep_i])
+        res.count("probe_tests", int(keep_i.sum()))
+        bad_i = not np.array_equal(got, pip(probes[keep_i], verts)) or abs(q.area - area * fac * fac) > 1e-9 * area * fac * fac
+        del q
+        gc.collect()
+        if bad_i:
+            res.violate("short-lived-polygon-answers-for-another-polygon", detail={"shape": case["shape"], "iteration": it})
+            break
     res.nontrivial = True
     res.outcome = "construct"
     return res
